@@ -42,7 +42,7 @@ class _Model:
         self.names, self.calls = names, 0
 
     def __call__(self, x):
-        if isinstance(x, list):
+        if not isinstance(x, dict):
             self.calls += len(x)
             return [{'output': float(sum(v for v in xi.values()))} for xi in x]
         self.calls += 1
